@@ -732,6 +732,155 @@ func (s *source) c11Ranges(fd *ast.FuncDecl) []string {
 	return out
 }
 
+// ---- typed order of effects: a function body as a list of (nesting depth, kind, what) - not a string skeleton:
+// calls, deferred calls, the bodies run under threading.RunSafe / inside Barrier.Guard / in if / for, sends, receives.
+
+func (s *source) c11Effs(fd *ast.FuncDecl) []string {
+	var out []string
+	emit := func(d int, kind, what string) {
+		out = append(out, fmt.Sprintf("{ depth := %d, kind := .%s, what := %s }", d, kind, leanString(what)))
+	}
+	var stmts func(list []ast.Stmt, d int)
+	var expr func(e ast.Expr, d int, deferred bool)
+	expr = func(e ast.Expr, d int, deferred bool) {
+		switch x := e.(type) {
+		case *ast.CallExpr:
+			fn := s.src(x.Fun)
+			if fl, ok := x.Fun.(*ast.FuncLit); ok { // func(){…}()
+				if deferred {
+					emit(d, "deferBlock", "")
+				} else {
+					emit(d, "block", "")
+				}
+				stmts(fl.Body.List, d+1)
+				return
+			}
+			if len(x.Args) == 1 {
+				if fl, ok := x.Args[0].(*ast.FuncLit); ok {
+					switch {
+					case fn == "threading.RunSafe":
+						emit(d, "runSafe", fn)
+					case strings.HasSuffix(fn, ".Guard"):
+						emit(d, "guard", fn)
+					default:
+						emit(d, "callWithFunc", fn)
+					}
+					stmts(fl.Body.List, d+1)
+					return
+				}
+			}
+			for _, a := range x.Args {
+				if c, ok := a.(*ast.CallExpr); ok {
+					expr(c, d, false)
+				}
+			}
+			if deferred {
+				emit(d, "deferCall", fn)
+			} else {
+				emit(d, "call", fn)
+			}
+		case *ast.UnaryExpr:
+			if x.Op == token.ARROW {
+				emit(d, "recv", s.src(x.X))
+			}
+		}
+	}
+	stmts = func(list []ast.Stmt, d int) {
+		for _, st := range list {
+			switch x := st.(type) {
+			case *ast.ExprStmt:
+				expr(x.X, d, false)
+			case *ast.DeferStmt:
+				expr(x.Call, d, true)
+			case *ast.AssignStmt:
+				for _, r := range x.Rhs {
+					expr(r, d, false)
+				}
+			case *ast.SendStmt:
+				emit(d, "send", s.src(x.Chan))
+			case *ast.IfStmt:
+				if x.Init != nil {
+					stmts([]ast.Stmt{x.Init}, d)
+				}
+				emit(d, "ifc", s.src(x.Cond))
+				stmts(x.Body.List, d+1)
+				if el, ok := x.Else.(*ast.BlockStmt); ok {
+					emit(d, "elsec", "")
+					stmts(el.List, d+1)
+				} else if x.Else != nil {
+					emit(d, "elsec", "")
+					stmts([]ast.Stmt{x.Else}, d+1)
+				}
+			case *ast.ForStmt:
+				c := ""
+				if x.Cond != nil {
+					c = s.src(x.Cond)
+				}
+				emit(d, "loop", c)
+				stmts(x.Body.List, d+1)
+			case *ast.ReturnStmt:
+				for _, r := range x.Results {
+					expr(r, d, false)
+				}
+				emit(d, "ret", "")
+			}
+		}
+	}
+	stmts(fd.Body.List, 0)
+	return out
+}
+
+func (e *emitter) c11EffList(s *source, rel, goName, leanName string) {
+	fd := s.findFunc(rel, goName)
+	if fd == nil {
+		e.errors = append(e.errors, "function "+goName+" not found in "+rel)
+		e.printf("def %s : List EffX := []\n\n", leanName)
+		return
+	}
+	e.printf("/-- typed order of effects of `%s` in %s -/\ndef %s : List EffX := [\n  %s]\n\n", goName, rel, leanName, strings.Join(s.c11Effs(fd), ",\n  "))
+}
+
+// c11DelegList: what a delegating wrapper calls on its PeriodicalExecutor, as typed values (method + printed arguments)
+func (e *emitter) c11DelegList(s *source, rel, goName, leanName, prefix string) {
+	fd := s.findFunc(rel, goName)
+	if fd == nil {
+		e.errors = append(e.errors, "function "+goName+" not found in "+rel)
+		e.printf("def %s : List DelegX := []\n\n", leanName)
+		return
+	}
+	var out []string
+	ast.Inspect(fd.Body, func(n ast.Node) bool {
+		if c, ok := n.(*ast.CallExpr); ok {
+			fn := s.src(c.Fun)
+			if strings.HasPrefix(fn, prefix) {
+				var args []string
+				for _, a := range c.Args {
+					if _, isLit := a.(*ast.FuncLit); isLit {
+						args = append(args, leanString("func"))
+					} else {
+						args = append(args, leanString(s.src(a)))
+					}
+				}
+				m := strings.TrimPrefix(fn, prefix)
+				k := "other " + leanString(m)
+				switch m {
+				case "Add":
+					k = "add"
+				case "Flush":
+					k = "flush"
+				case "Wait":
+					k = "wait"
+				case "Sync":
+					k = "sync"
+				}
+				out = append(out, fmt.Sprintf("{ method := .%s, args := [%s] }", k, strings.Join(args, ", ")))
+			}
+		}
+		return true
+	})
+	e.printf("/-- what `%s` in %s calls on its PeriodicalExecutor (typed) -/\ndef %s : List DelegX := [%s]\n\n", goName, rel, leanName, strings.Join(out, ", "))
+}
+
 func init() {
 	register("C11", func(s *source, e *emitter) {
 		const f = "core/executors/periodicalexecutor.go"
@@ -898,5 +1047,24 @@ func init() {
 		e.c11List(s, q, "parseInsertStmt", "parseIndexCalls", "the searches", func(fd *ast.FuncDecl) []string {
 			return s.c11Calls(fd, "strings.Index", "strings.LastIndexByte", "strings.ToLower", "strings.TrimSpace")
 		})
+		// typed effects and typed delegations (round 5e)
+		e.printf("inductive EffK | call | deferCall | deferBlock | block | runSafe | guard | callWithFunc | ifc | elsec | loop | send | recv | ret\n  deriving DecidableEq, Repr\n\nstructure EffX where\n  depth : Nat\n  kind : EffK\n  what : String\n  deriving DecidableEq, Repr\n\n")
+		e.printf("inductive MethX | add | flush | wait | sync | other (m : String)\n  deriving DecidableEq, Repr\n\nstructure DelegX where\n  method : MethX\n  args : List String\n  deriving DecidableEq, Repr\n\n")
+		e.c11EffList(s, f, "PeriodicalExecutor.executeTasks", "executeTasksEffs")
+		e.c11EffList(s, f, "PeriodicalExecutor.Wait", "waitEffs")
+		e.c11EffList(s, f, "PeriodicalExecutor.Flush", "flushEffs")
+		e.c11EffList(s, f, "PeriodicalExecutor.Add", "addEffs")
+		e.c11EffList(s, f, "PeriodicalExecutor.enterExecution", "enterExecutionEffs")
+		e.c11DelegList(s, b, "BulkExecutor.Add", "bulkAddDeleg", "be.executor.")
+		e.c11DelegList(s, b, "BulkExecutor.Flush", "bulkFlushDeleg", "be.executor.")
+		e.c11DelegList(s, b, "BulkExecutor.Wait", "bulkWaitDeleg", "be.executor.")
+		e.c11DelegList(s, c, "ChunkExecutor.Add", "chunkAddDeleg", "ce.executor.")
+		e.c11DelegList(s, c, "ChunkExecutor.Flush", "chunkFlushDeleg", "ce.executor.")
+		e.c11DelegList(s, c, "ChunkExecutor.Wait", "chunkWaitDeleg", "ce.executor.")
+		e.c11DelegList(s, q, "BulkInserter.Insert", "sqlxInsertDeleg", "bi.executor.")
+		e.c11DelegList(s, q, "BulkInserter.Flush", "sqlxFlushDeleg", "bi.executor.")
+		e.c11DelegList(s, q, "BulkInserter.UpdateOrDelete", "sqlxUpdateOrDeleteDeleg", "bi.executor.")
+		e.c11DelegList(s, q, "BulkInserter.UpdateStmt", "sqlxUpdateStmtDeleg", "bi.executor.")
+		e.c11DelegList(s, q, "BulkInserter.SetResultHandler", "sqlxSetResultHandlerDeleg", "bi.executor.")
 	})
 }
